@@ -7,6 +7,7 @@ import (
 	"hash/fnv"
 	"io"
 	"runtime/metrics"
+	"seehuhn.de/go/postscript/funit"
 	"sort"
 	"sync"
 	"time"
@@ -320,7 +321,10 @@ func wrapNil[T any](v T, err error) (any, error) {
 // two-input decoders: one input is mutated, the other one stays as in the seed
 func c02GlyfSeeds(name string, glyfData, locaData []byte, format int16) []*c02Seed {
 	dec := func(g, l []byte) (any, error) {
-		return wrapNil(glyf.Decode(&glyf.Encoded{GlyfData: g, LocaData: l, LocaFormat: format}))
+		// exactly sized slices: reading beyond the length must not be saved by spare capacity
+		g = append(make([]byte, 0, len(g)), g...)
+		l = append(make([]byte, 0, len(l)), l...)
+		return wrapNil(glyf.Decode(&glyf.Encoded{GlyfData: g[:len(g):len(g)], LocaData: l[:len(l):len(l)], LocaFormat: format}))
 	}
 	return []*c02Seed{
 		{dec: "glyf.Decode", name: name + "/glyf data", data: glyfData, run: func(b []byte) (any, error) { return dec(b, locaData) }},
@@ -611,6 +615,17 @@ func c02Seeds(thorough bool) []*c02Seed {
 					add(c02TableSeed("post.Read", fmt.Sprintf("post variant %d", i), pb))
 				}
 			}
+		}
+		// a glyf table whose last glyph is a composite with an instruction block (nothing behind it in the buffer)
+		{
+			simple := gen.SimpleGlyf([][]gen.Pt{{{0, 0, true}, {300, 0, true}, {150, 400, true}}}, nil)
+			comp := gen.CompositeGlyf(funit.Rect16{URx: 300, URy: 400}, 0)
+			d := comp.Data.(glyf.CompositeGlyph)
+			d.Components[0].Flags |= glyf.FlagWeHaveInstructions
+			d.Instructions = []byte{0xB0, 0x01, 0xB0}
+			comp.Data = d
+			enc := glyf.Glyphs{simple, comp}.Encode()
+			add(c02GlyfSeeds("composite with instructions last", enc.GlyfData, enc.LocaData, enc.LocaFormat)...)
 		}
 		add(c02TableSeed("kern.Read", "two subtables", c02KernTable()))
 		c02AllSeeds = seeds
